@@ -6,6 +6,7 @@ import (
 	"net"
 	"strings"
 	"sync"
+	"time"
 
 	"layeh.com/radius"
 )
@@ -66,7 +67,8 @@ type acctServer struct {
 	log     []Rec
 	inc     int
 	seen    map[string]struct{}
-	dropN   int // silently ignore the next dropN authentic requests (real-time scenario only)
+	late    time.Duration // answer this late (the request is logged at once)
+	dropN   int           // silently ignore the next dropN authentic requests (real-time scenario only)
 	dropped int
 	badAuth int
 	retrans int
@@ -97,6 +99,8 @@ func (s *acctServer) reset(prefix []Rec, inc int) {
 func (s *acctServer) setDrop(n int) { s.mu.Lock(); s.dropN = n; s.mu.Unlock() }
 
 func (s *acctServer) setInc(inc int) { s.mu.Lock(); s.inc = inc; s.mu.Unlock() }
+
+func (s *acctServer) setLate(d time.Duration) { s.mu.Lock(); s.late = d; s.mu.Unlock() }
 
 func (s *acctServer) snapshot() []Rec {
 	s.mu.Lock()
@@ -178,6 +182,12 @@ func (s *acctServer) loop() {
 
 		resp := p.Response(radius.CodeAccountingResponse)
 		if wire, err := resp.Encode(); err == nil {
+			s.mu.Lock()
+			late := s.late
+			s.mu.Unlock()
+			if late > 0 {
+				time.Sleep(late) // see Inc.LateMs
+			}
 			s.conn.WriteToUDP(wire, from)
 		}
 	}
